@@ -11,6 +11,8 @@
 (*   History rows carry in addition "ins", "refs2", "got2": an unnumbered  *)
 (*   definition was inserted after position ins and the module printed     *)
 (*   again; the same laws are required of (InsAt(got.ids, ins, -1), got2). *)
+(*   With "del" > 0 that definition was removed from the module before the *)
+(*   insertion: the laws are required of InsAt(DelAt(got.ids, del), ..).   *)
 (* Laws (operators of Metadata.tla applied to the recorded outcome):       *)
 (*   error-iff-duplicate, unique, explicit-kept, smallest-unused,          *)
 (*   ref-prints-target-id  (tokens = Tokens(got.ids, refs)).               *)
@@ -67,7 +69,8 @@ IRBad(r) == LET row == IR[r] s == row.ids g == row.got IN
   + Chk(g.ok /\ Len(g.ids) = Len(s) => g.tokens = M!Tokens(g.ids, row.refs), "ir", "ref-prints-target-id", r)
   \* history rows (MetadataHist.tla): an unnumbered definition inserted after position ins, printed again
   + (IF "ins" \in DOMAIN row /\ g.ok /\ Len(g.ids) = Len(s)   \* (a wrong first print is reported above)
-     THEN LET s2 == M!InsAt(g.ids, row.ins, -1) g2 == row.got2 IN
+     THEN LET del == IF "del" \in DOMAIN row THEN row.del ELSE 0   \* a definition removed before the insertion
+              s2 == M!InsAt(M!DelAt(g.ids, del), row.ins, -1) g2 == row.got2 IN
             Chk(g2.ok, "ir", "second-print-ok", r)
           + Chk(M!LawUnique(s2, g2) /\ M!LawExplicitKept(s2, g2), "ir", "second-print-explicit-kept", r)
           + Chk(M!LawSmallestUnused(s2, g2), "ir", "second-print-smallest-unused", r)
